@@ -190,6 +190,7 @@ func runC07(c *an.Ctx, p *an.Prog, thorough bool) {
 		c.Undecided("C07.2", "Seal", "-", "UNRESOLVED: no AEAD.Seal invocation found")
 	}
 
+	aeadOpenPrecondition(c, p, "C07.3")
 	// ---- C07.3 open failure is fatal ----
 	var openFn *ssa.Function
 	for _, fn := range pkgFns(p, mainPkg) {
@@ -661,4 +662,55 @@ func valueLeaks(p *an.Prog, origin ssa.Value, stack []*ssa.Call, allowed map[str
 	}
 	walk(origin, len(stack))
 	return leaks
+}
+
+// aeadOpenPrecondition: cipher.AEAD.Open panics ("incorrect nonce length given to GCM") unless len(nonce) ==
+// NonceSize() — the interface's documented precondition. The nonce of a session token comes from the request, so every
+// path to an Open in the agent must have established len(nonce) == aead.NonceSize() (or == 12, the size of the
+// standard GCM this factory builds). A panic in a handler is recovered by net/http, which then closes the connection
+// without any status: a malformed token would get *no* answer instead of a refusal.
+func aeadOpenPrecondition(c *an.Ctx, p *an.Prog, rule string) {
+	n := 0
+	for _, fn := range pkgFns(p, mainPkg) {
+		for _, in := range an.DeepInstrs(fn) {
+			ci, ok := in.(ssa.CallInstruction)
+			if !ok || !ci.Common().IsInvoke() || ci.Common().Method.Name() != "Open" || !strings.Contains(ci.Common().Value.Type().String(), "cipher.AEAD") {
+				continue
+			}
+			n++
+			var bad []string
+			er := an.EnumPaths(fn, nil, in, func(s *an.PathState) {
+				args := s.CallArgs(ci) // recv, dst, nonce, ciphertext, ad
+				aead, nonce := args[0], args[2]
+				okLen := false
+				for _, a := range s.Atoms {
+					if a.Op != "==" || a.B == nil {
+						continue
+					}
+					for _, pr := range [][2]*an.Term{{a.A, a.B}, {a.B, a.A}} {
+						lc, _ := pr[0].CallOf()
+						if lc == nil || pr[0].Op != "call" || lc.Aux != "builtin len" || lc.Args[0].StripConv().K != nonce.StripConv().K {
+							continue
+						}
+						if pr[1].IsConst("12") {
+							okLen = true
+						}
+						if ns, _ := pr[1].CallOf(); ns != nil && pr[1].Op == "call" && strings.HasSuffix(ns.Aux, "cipher.AEAD.NonceSize") && ns.Args[0].K == aead.K {
+							okLen = true
+						}
+					}
+				}
+				if !okLen {
+					bad = append(bad, "AEAD.Open reached without len(nonce) == NonceSize(): a token whose nonce part has another length makes Open panic; the request then gets no status at all (path "+s.BlockPath()+")")
+				}
+			})
+			if !er.Complete {
+				bad = append(bad, "path limit")
+			}
+			c.Check(len(bad) == 0, rule, fnKey(fn)+"|Open-nonce-size", p.InstrPos(in), "Open only under len(nonce) == NonceSize()", strings.Join(uniqS(bad), "; "))
+		}
+	}
+	if n == 0 {
+		c.Undecided(rule, "Open-nonce-size", "-", "UNRESOLVED: no AEAD.Open invocation found")
+	}
 }
